@@ -34,12 +34,12 @@ from ..sexp import Sym, json_sx, sx_json
 # generated stream as a regression case: a failure there is a VIOLATION.  The former F21 witnesses (null items under
 # a non-null list) are part of every "nulls"/"rand" value: a refusal there is a VIOLATION too.
 REGRESSION_STREAMS = ["kw_enum_default", "obj_enum_default", "list_obj_default",   # F9c, F9a, F9b: fixed
+                      "coerced_default",                                          # F9d: fixed (e1f804e)
                       "enum_positions", "falsy_defaults"]   # systematic positions / falsy values (main class)
 STREAM_CLASS = {
-    "coerced_default": "F9d-default-relies-on-literal-coercion",
-    "colliding_names": "F18-colliding-field-names",
+    "colliding_names": "F18b-python-name-is-other-graphql-name",
 }
-F18 = "F18-colliding-field-names"
+F18 = "F18b-python-name-is-other-graphql-name"   # what is left of F18 after bec4417 (Model/Inputs.v names_ok_fields)
 CANONICAL = ("min", "full", "nulls", "rand", "corpus")
 
 
@@ -115,8 +115,6 @@ def lit_relies_on_coercion(t, node):
 
 
 def default_class(t, node):
-    if lit_relies_on_coercion(t, node):
-        return STREAM_CLASS["coerced_default"]
     return None
 
 
